@@ -597,7 +597,12 @@ def run(ctx):
     for g in range(ctx.scale(40, 2000)):
         op = rng.choice(["body", "json", "form", "stream"])
         specs = [(rng.choice(["json", "urlenc", "multipart"] if op != "json" else ["json", "badjson"]), rng.choice([0, 2, 5]), str(2 + j)) for j in range(rng.choice([2, 3, 4]))]
-        in_flight(ctx, op, specs)
+        if g % 8 == 0:
+            from vf import inflight
+            with inflight.preemptor() as pre:
+                in_flight(ctx, op, specs, pre)
+        else:
+            in_flight(ctx, op, specs)
         ctx.case(("in-flight", op, tuple(specs)))
     ctx.sample("concurrent", {"body": "urlenc", "chunk_lengths": [3, 8], "disconnect_at": None, "tasks": [("body", 0), ("form", 1), ("stream", 3)], "yields_in_receive": 1})
 
@@ -695,7 +700,7 @@ def body_apps(op):
     return {"wsgi": wapp, "asgi": aapp}
 
 
-def in_flight(ctx, op, specs):
+def in_flight(ctx, op, specs, pre=None):
     """several requests with bodies in flight at once (their messages arriving interleaved): each application call reads
     exactly its own request's body (vf/inflight.py)"""
     from vf import inflight
@@ -707,7 +712,7 @@ def in_flight(ctx, op, specs):
         chunks = [body[:cut], body[cut:cut * 2], body[cut * 2:]] if cut else [body]
         reqs.append(drivers.Req(method="POST", headers=[("Content-Type", ct)], chunks=chunks))
     for iface in ("wsgi", "asgi"):
-        inflight.check_group(ctx, iface, apps[iface], reqs, "request-body", {"in_flight_bodies": [list(x) for x in specs], "op": op})
+        inflight.check_group(ctx, iface, apps[iface], reqs, "request-body", {"in_flight_bodies": [list(x) for x in specs], "op": op}, pre=pre)
 
 
 def replay(ctx, case):
@@ -716,7 +721,12 @@ def replay(ctx, case):
         ctx.case(1)
         return
     if "in_flight_bodies" in case:
-        in_flight(ctx, case["op"], [tuple(x) for x in case["in_flight_bodies"]])
+        if case.get("preempted"):
+            from vf import inflight
+            with inflight.preemptor() as pre:
+                in_flight(ctx, case["op"], [tuple(x) for x in case["in_flight_bodies"]], pre)
+        else:
+            in_flight(ctx, case["op"], [tuple(x) for x in case["in_flight_bodies"]])
         ctx.case(1)
         return
     bname = case["body"]
